@@ -50,8 +50,8 @@ PHASES = [
     ("split", "fast_ticc.data_preparation", "split_joint_labels"),
 ]
 LOOP_PHASES = ("repopulate", "statistics", "optimise", "relabel")
-FAULTABLE_PHASES = ("init_labels", "repopulate", "statistics", "optimise", "relabel",
-                    "bic", "ch", "ll_by_cluster")
+FAULTABLE_PHASES = ("stack", "stack_multi", "init_labels", "repopulate", "statistics", "optimise", "relabel",
+                    "ll_table", "viterbi", "bic", "ch", "ll_by_cluster", "split", "pad")
 
 
 # ---------------------------------------------------------------------------
